@@ -394,6 +394,7 @@ class Engine:
         if (a in s.bodies or a in s.bodies.simple) and a != t: return s.const(a, st)
         ev = s.enum_variant(t)
         if ev is not None: return Enum(ev[1], [], ev[0])
+        if t.startswith('tracing::') or '::__CALLSITE' in t or t.startswith('{alloc'): return Opaque('const', t)      # logging machinery: never inspected (the level filter is modelled as off)
         raise Inconclusive('const ' + t)
     def operand(s, st, fr, op):
         if isinstance(op, Const): return s.const(op.text, st)
